@@ -63,7 +63,7 @@ TRUSTED_EXTRA = [
 ]
 MANIFEST = {
     "level_text": "Lean theorems over the gate table regenerated from /repo on every run: every documented gate function "
-    "(18 tket.quantum gates, 6 qsystem gates, 11 alloc/measure/reset bindings, ch / zz_max / qubit methods as body "
+    "(18 tket.quantum gates, 6 qsystem gate bindings, 14 alloc/measure/reset bindings; ch and zz_max as body "
     "decompositions) emits exactly the op of its documented name with the caller's qubits on the op's ports in "
     "declaration order for ALL actual arguments (unbounded), rotations pass halfturns unscaled through "
     "from_halfturns_unchecked, qsystem gates pass halfturns*pi; table and spec cover each other; angle arithmetic "
@@ -75,7 +75,7 @@ MANIFEST = {
     "Spec/C20.lean. The T-obj tie is exhaustive over rows x permutations (thorough tier), the T-exec tie is sampling.",
     "technique": "Lean 4 proof over a table regenerated from source (T-src) + extraction from real lowering (T-obj) + CPython execution of std bodies (T-exec)",
     "design_ref": "DESIGN.md §5 C20",
-    "ready": False,
+    "ready": True,
 }
 
 GEN_REL = os.path.join("GuppyVerif", "Gen", "C20GateTable.lean")
@@ -900,7 +900,7 @@ def tie_gates(ctx, rows):
             try:
                 mod = feed.load(src, prelude=PROBE_PRELUDE)
                 g = feed.lower(mod.p)
-                if opaque:
+                if opaque and (row["modl"], row["name"]) in ORACLE_OPAQUE:
                     real = "opaque"
                 else:
                     ops_txt, outs = read_probe(g, "p", row["params"])
@@ -913,10 +913,18 @@ def tie_gates(ctx, rows):
             finally:
                 if mod is not None:
                     feed.unload(mod)
-        if opaque or (row["modl"], row["name"]) in ORACLE_OPAQUE and real == "opaque":
+        listed = (row["modl"], row["name"]) in ORACLE_OPAQUE
+        if opaque and listed:
+            # documented as unmodelled: only check that it still lowers
             ctx.count(key, nontrivial=False, kind="opaque:" + real.split(":")[0])
             if real not in ("opaque", "unprobed"):
                 ctx.broke(f"opaque row {key} does not lower: {real}")
+            continue
+        if listed:
+            # the body became readable: compare table and lowering only (no documented circuit to compare with)
+            ctx.count(key, nontrivial=False, kind="listed-unmodelled")
+            if real != m:
+                ctx.broke(f"gate table (model emit) vs lowered probe on {key}: real=`{real}` model=`{m}`")
             continue
         orc = oracle_ops(row, perm) + " -> " + " ".join(oracle_outs(row, perm))
         if not doc_order_ok(row):
@@ -1155,6 +1163,41 @@ def tie_angles(ctx):
         ctx.broke(f"constant pi: object {realpi} vs model {model[-1]}")
 
 
+def _doc_matrix(doc):
+    """(prefactor text, rows of cell texts) of the first LaTeX pmatrix in a docstring, or None"""
+    import re
+
+    m = re.search(r"=(?P<pre>[^=]*?)\\begin\{pmatrix\}(?P<body>.*?)\\end\{pmatrix\}", doc, re.S)
+    if not m:
+        return None
+    rows = [[c.strip() for c in r.split("&")] for r in m.group("body").split("\\\\") if r.strip()]
+    return m.group("pre").strip(), rows
+
+
+def tie_docs(ctx, rows):
+    """documented matrices of controlled gates must be block matrices [[I, 0], [0, U]] with an UNSCALED identity
+    block (a prefactor in front of the whole matrix makes the documented operator non-unitary).  Witness of the
+    fixed docstring defect of `ch`."""
+    for row in rows:
+        if row["modl"] != "quantum" or row["name"] not in ("cx", "cy", "cz", "ch", "crz"):
+            continue
+        dm = _doc_matrix(row["doc"])
+        key = f"doc-matrix {row['modl']}.{row['name']}"
+        ctx.count(key, nontrivial=dm is not None, kind="doc-matrix")
+        if dm is None:
+            continue
+        pre, cells = dm
+        ident = len(cells) == 4 and cells[0] == ["1", "0", "0", "0"] and cells[1] == ["0", "1", "0", "0"] \
+            and cells[2][:2] == ["0", "0"] and cells[3][:2] == ["0", "0"]
+        if pre != "" or not ident:
+            ctx.violation(
+                "doc:" + row["name"],
+                f"docstring of {row['modl']}.{row['name']} documents a matrix that is not controlled-U with an unscaled "
+                f"identity block (prefactor `{pre}`, rows {cells[:2]})",
+                {"kind": "doc", "modl": row["modl"], "name": row["name"], "prefactor": pre, "rows": cells},
+            )
+
+
 def tie(ctx):
     rows = getattr(ctx, "_c20_rows", None)
     if rows is None:
@@ -1162,6 +1205,7 @@ def tie(ctx):
         for p in problems:
             ctx.broke(p)
     tie_gates(ctx, rows)
+    tie_docs(ctx, rows)
     tie_angles(ctx)
 
 
